@@ -23,7 +23,7 @@ from ..rundir import GEN as _GEN  # noqa: E402
 EXTRA_PROOF_FILES = ["generated/Facts_coercers.v"]
 ASSUMPTIONS = [
     "the stdlib constructors (Decimal, UUID, date/datetime.fromisoformat) are oracles: each case carries the real result of the real constructor",
-    "round-trip of canonical text (str(x), x.isoformat()) is a stdlib property that is sampled, not proved",
+    "round-trip of canonical text: proved for UUIDs against the concrete text model of Model/Text.v (which is compared with the stdlib on every run); for Decimal / date / datetime it is a stdlib property that is sampled, not proved",
     "treatment of subclasses of the *source* types (str subclasses, bool as int) is outside the claim",
 ]
 TRUSTED_EXTRA = ["fact translator harness/facts/coercers.py (python ast) regenerates coq/generated/Facts_coercers.v from /repo on every run"]
@@ -214,6 +214,87 @@ def roundtrip(rng: random.Random, tier: str) -> List[dict]:
     return bad[:3]
 
 
+def text_model(rng: random.Random, tier: str) -> List[dict]:
+    """Model/Text.v against CPython: str(UUID) = uuid_str, UUID(s) against uuid_parse (sound everywhere, exact on
+    texts made of hex digits, dashes and braces), Decimal(int) = dec_of_int.  The round-trip theorem
+    C16_uuid_roundtrip is about these definitions; this family is what ties them to the stdlib."""
+    from concurrent.futures import ThreadPoolExecutor
+    from ..corr import GEN, HEADER, run_coq_file
+    from ..lang import coq
+    n_u = 40 if tier == "quick" else 600
+    ints = [0, 1, 15, 16, 2 ** 128 - 1, 2 ** 127, 2 ** 64, 0x12345678123456781234567812345678, 0xABCDEFABCDEFABCDEFABCDEFABCDEFAB]
+    ints += [rng.getrandbits(128) for _ in range(n_u)] + [rng.getrandbits(rng.randrange(1, 128)) for _ in range(n_u // 2)]
+    lines: List[tuple] = []
+    zl = lambda s_: "[" + "; ".join(str(ord(ch)) for ch in s_) + "]"
+    for n in ints:
+        lines.append((f"(uuid_str ({n}))", zl(str(UUID(int=n))), f"str(UUID(int={n}))"))
+    alphabet = "0123456789abcdefABCDEF-{}"
+    hostile = alphabet + "gGuxX_ +:\u0663\uff11\n"
+    strs: List[str] = []
+    for n in ints[: max(12, n_u // 2)]:
+        u = UUID(int=n)
+        strs += texts("KUuid", u)
+        s_ = str(u)
+        strs += ["{" + s_, s_ + "}", "{{" + s_ + "}}", "}" + s_ + "{", "-" + s_, s_ + "-", "--".join(s_.split("-")), u.hex.upper(),
+                 s_[:8] + "{" + s_[8:], "0x" + u.hex[2:], "+" + u.hex[1:], u.hex[:15] + "_" + u.hex[16:], " " + u.hex[1:], "uuid:" + s_,
+                 "urn:" + s_, u.hex + "-" * 5, "", "-", "{}", u.hex[:31], u.hex + "0"]
+        for _ in range(4):
+            t = list(s_)
+            for _ in range(rng.randrange(1, 4)):
+                k = rng.randrange(0, len(t) + 1)
+                op = rng.randrange(3)
+                pool = alphabet if rng.random() < 0.7 else hostile
+                if op == 0 and t:
+                    t[min(k, len(t) - 1)] = rng.choice(pool)
+                elif op == 1:
+                    t.insert(k, rng.choice(pool))
+                elif t:
+                    del t[min(k, len(t) - 1)]
+            strs.append("".join(t))
+    n_some = 0
+    for s_ in strs:
+        try:
+            py = UUID(s_).int
+            n_some += 1
+        except ValueError:
+            py = None
+        lines.append((f"(uuid_agree {zl(s_)} {'None' if py is None else '(Some (' + str(py) + '))'})", "true", f"UUID({s_!r}) -> {py!r}"))
+    for z in [0, 1, -1, 10, -10, 255, 10 ** 30, -(10 ** 30), 2 ** 70] + [rng.randrange(-10 ** 20, 10 ** 20) for _ in range(n_u // 2)]:
+        lines.append((f"(dec_of_int ({z}))", coq(from_py(Decimal(z), None)), f"Decimal({z})"))
+    os.makedirs(GEN, exist_ok=True)
+    hdr = HEADER.replace("Corr.Check.", "Corr.Check Model.Text.")
+    files = []
+    per = 400
+    for k in range(0, len(lines), per):
+        chunk = lines[k:k + per]
+        path = os.path.join(GEN, f"cases_C16text_p{os.getpid()}_{k // per}.v")
+        body = [hdr, "Goal True.\n"] + [f"  chk_eq {i}%nat {lhs} {rhs}.\n" for i, (lhs, rhs, _) in enumerate(chunk)] + ["exact I. Qed.\n"]
+        open(path, "w").write("".join(body))
+        files.append((path, chunk))
+    with ThreadPoolExecutor(max_workers=8) as ex:
+        results = list(ex.map(lambda fc: run_coq_file(fc[0]), files))
+    bad: List[dict] = []
+    for (path, chunk), (status, mm, raw) in zip(files, results):
+        if status != "ok":
+            bad.append({"kind": "correspondence", "signature": None,
+                        "what": f"correspondence file {os.path.basename(path)} failed to evaluate", "log": raw[-1500:]})
+        for idx, model in mm[:3]:
+            bad.append({"kind": "correspondence", "signature": None,
+                        "what": "correspondence family 'C16-text' no longer checks: the text model (Model/Text.v) and the stdlib differ on "
+                                + chunk[idx][2], "model_outcome": model[:600], "replay_case": None})
+        if status == "ok" and not mm:
+            for ext in (".v", ".vo", ".vok", ".vos", ".glob"):
+                try:
+                    os.remove(path[:-2] + ext)
+                except OSError:
+                    pass
+    TEXT_STATS.update({"uuid_printed": len(ints), "uuid_texts_parsed": len(strs), "of_which_accepted_by_the_stdlib": n_some})
+    return bad[:4]
+
+
+TEXT_STATS: dict = {}
+
+
 def nontrivial(c: Case) -> bool:
     return c.tag.startswith("a:")
 
@@ -221,6 +302,8 @@ def nontrivial(c: Case) -> bool:
 def run(tier: str, rng: random.Random, proof_ok: bool) -> dict:
     rep = run_families("C16", cases(tier, rng), rng, oracle, nontrivial)
     rep["violations"] += roundtrip(rng, tier)
+    rep["violations"] += text_model(rng, tier)
+    rep["coverage"]["text_model_against_stdlib"] = dict(TEXT_STATS)
     return rep
 
 
